@@ -1,0 +1,27 @@
+//go:build verif
+
+package desync
+
+// VerifSparse, when set by the verification harness, is called at the instrumented
+// sites of the copy-on-read sparse file (SparseFileHandle.ReadAt, sparseFileLoader.loadRange,
+// loadChunk, preloadChunksFromState) with the event that has just happened (or, for
+// "want", "feed", "idle" and "readfile", the operation the goroutine is about to
+// perform) and its values: a chunk index, or the first and last chunk of a range.
+// It lets the harness schedule the goroutines and record event traces.
+var VerifSparse func(ev string, a, b int)
+
+func verifSparse(ev string, a, b int) {
+	if f := VerifSparse; f != nil {
+		f(ev, a, b)
+	}
+}
+
+func verifSparseFlag(ev string, a int, flag bool) {
+	if f := VerifSparse; f != nil {
+		b := 0
+		if flag {
+			b = 1
+		}
+		f(ev, a, b)
+	}
+}
